@@ -209,6 +209,17 @@ def process_world(args):
                     res['fails'].append(f)
         if not qo.lookups_registered():
             res['fails'].append(dict(clause='harness', function='-', root_kind='-', signature='unclassified|lookup-not-restored'))
+        # the hypothesis PolCoh of C13_lookup_hypothesis_for_identifiers, on the implementation: the children of a
+        # parent under the EDIF policy carry .NS = EDIF (after all the edits of this session)
+        for o in w.objs:
+            if w.kind(o) in ('netlist', 'library', 'definition') and '.NS' in o and o['.NS'] == 'EDIF':
+                for attr in ('libraries', 'definitions', 'ports', 'cables', 'children'):
+                    for ch in getattr(o, attr, ()):
+                        stats['polcoh_children_checked'] += 1
+                        if '.NS' not in ch or ch['.NS'] != 'EDIF':
+                            res['fails'].append(dict(clause='lookup', function='-', root_kind=w.kind(o), key='EDIF.identifier', policy=policy,
+                                                     detail='child %s of EDIF parent %s has .NS %r' % (qo.elem_tok(w, ch), qo.elem_tok(w, o), ch.get('.NS')),
+                                                     signature='unclassified|policy-coherence'))
     finally:
         w.close()
     res['stats'] = stats
@@ -736,9 +747,15 @@ def assumptions():
         'strings are ASCII; values under a key are str or absent (None = absent)',
         'regex patterns outside the modelled fragment (anchors, {m,n}, lazy/possessive quantifiers, (?..), \\d \\w ...) are not compared with the model; the oracle still uses Python re for them',
         'the empty string as a pattern is excluded from the filter theorems (hypothesis ~ In [] pats)',
-        'lookups_ok / LookOK (what global_service.lookup answers = every child carrying the value) is a hypothesis of the filter theorems; '
-        'it is derived from C10\'s table invariant for the key .NAME (C13_lookup_hypothesis_for_names) and holds outright for keys without a '
-        'registered lookup and with the lookups deregistered (C13_lookup_hypothesis_for_scanned_keys)',
+        'lookups_ok / LookOK (what global_service.lookup answers = every child carrying the value, compared the way the namespace of the child '
+        'compares it) is a hypothesis of the filter theorems; it is derived from C10\'s table invariant for the key .NAME '
+        '(C13_lookup_hypothesis_for_names), holds outright for keys without a registered lookup and with the lookups deregistered '
+        '(C13_lookup_hypothesis_for_scanned_keys) and under the DEFAULT policy, and for EDIF.identifier under the EDIF policy it is derived '
+        'from C10\'s invariant plus PolCoh - the children of a parent with an EDIF table carry .NS = EDIF - which is proved for every '
+        'state reached by editing calls (C13_policy_coherence_reachable, C13_lookup_hypothesis_reachable) and checked on the implementation '
+        'on every run (policy-coherence check, lookup clause of the oracle)',
+        'an exact pattern is compared per element: case-insensitively iff the key is EDIF.identifier and the element\'s .NS is EDIF (oracle: '
+        'ci_exact(e); model: fold_of) - finding C13-K4 repaired',
         'the enumeration theorems assume the structural invariants QWF (C01/C02 invariants, well-kinded ids; hold in every state reached by '
         'editing calls: C13_reachable_states) and speak about runs that end within the fuel (WOk); that some fuel suffices is proved for '
         'get_netlists / get_ports / get_pins in every such state and for get_instances / get_definitions / get_libraries / get_cables / '
@@ -746,7 +763,7 @@ def assumptions():
         'by a finite-universe measure on the unmarked identifiers)',
         'get_cables / get_wires with selection ALL (cross-hierarchy closure): specified as the closure of wire_adj from the wires at the pins '
         'the root leads to and proved exact for one root of any kind (C13_get_wires_all, C13_get_cables_all, C13_get_cables_all_candidates); '
-        'for a collection of roots under ALL: soundness (C13_get_wires_all_sound) and the enumeration-independent clauses; compared with the '
+        'and for any collection of roots (C13_get_wires_all_roots, C13_get_cables_all_roots(_candidates)); compared with the '
         'implementation on every run',
         'the five hierarchical queries: the candidate enumeration is the hier engine\'s (C11/C12); here the filter law over the references found '
         '(C13_hier_filters_unfiltered), tied by the stage request H over roots of every kind and every selection, and by the oracle',
